@@ -72,7 +72,16 @@ def seeds():
 def main():
     path = os.path.join(VERIF, 'DESIGN.md')
     text = open(path).read()
-    for name, body in (('obligations', obligations()), ('seed-matrix', seeds())):
+    def fixes():
+        out = ['| commit | property | what failed (rule that now decides it) |', '|---|---|---|']
+        n = 0
+        for line in open(os.path.join(VERIF, 'KNOWN_FINDINGS.txt')):
+            mm = re.match(r'^(fixed|known): property=(C\d\d) (\S+) (.*)$', line.strip())
+            if mm:
+                n += 1
+                out.append('| {} | {} | {} |'.format(mm.group(3) if mm.group(1) == 'fixed' else 'KNOWN (open)', mm.group(2), mm.group(4).replace('|', '/')))
+        return '{} lines.\n\n'.format(n) + '\n'.join(out)
+    for name, body in (('obligations', obligations()), ('seed-matrix', seeds()), ('fixes', fixes())):
         b, e = '<!-- BEGIN generated:{} -->'.format(name), '<!-- END generated:{} -->'.format(name)
         if b not in text:
             raise SystemExit('marker missing: ' + b)
